@@ -1,5 +1,4 @@
 import Witverif.Abi.NamesBackends
-import Witverif.Proofs.Heck
 /-! Helper lemmas for C13 (`Props/C13.lean`): string normalisation, membership in the spec's
 world-level sets, the generic world-traversal lemmas over `Emit`. -/
 namespace Witverif.Abi.Names
@@ -57,14 +56,17 @@ theorem Spec.mem_fsAll_unit {k : Key} {f : Fn} {exported stream : Bool} {op : Fs
 /-! ### well-formed worlds and the generic traversal lemmas -/
 
 /-- every function / resource of the world satisfies the side conditions, interfaces have a key -/
-structure World.WF (okFn : Key → Fn → Prop) (okRes : Key → String → Prop) (w : World) : Prop where
+structure World.WF (okFn : Key → Fn → Prop) (okRes : Key → String → Prop) (w : World)
+    (okWorld : World → Prop := fun _ => True) : Prop where
+  world : okWorld w
   ifaceKey : ∀ it ∈ w.imports ++ w.exports, ∀ i, it = .iface i → i.key ≠ .root
   fnI : ∀ it ∈ w.imports ++ w.exports, ∀ i, it = .iface i → ∀ f ∈ i.funcs, okFn i.key f
   fnW : ∀ it ∈ w.imports ++ w.exports, ∀ f, it = .func f → okFn .root f
   resI : ∀ it ∈ w.exports, ∀ i, it = .iface i → ∀ r ∈ i.res, okRes i.key r
 
 /-- per-item soundness of an emitter against the spec, under side conditions -/
-structure Emit.SoundOn (e : Emit) (okFn : Key → Fn → Prop) (okRes : Key → String → Prop) : Prop where
+structure Emit.SoundOn (e : Emit) (okFn : Key → Fn → Prop) (okRes : Key → String → Prop)
+    (okWorld : World → Prop := fun _ => True) : Prop where
   importFn : ∀ k f, okFn k f → ∀ d ∈ e.importFn k f, d.imp ∈ Spec.importsOfFn k f
   exportFnImports : ∀ k f, okFn k f → ∀ d ∈ e.exportFnImports k f, d.imp ∈ Spec.importsOfExportedFn k f
   exportFn : ∀ k f, okFn k f → ∀ x ∈ e.exportFn k f, x ∈ Spec.exportsOfFn k f
@@ -77,11 +79,11 @@ structure Emit.SoundOn (e : Emit) (okFn : Key → Fn → Prop) (okRes : Key → 
   exportRes : ∀ k r, k ≠ .root → okRes k r → ∀ x ∈ e.exportRes k r,
     x ∈ (Spec.dtor .sync k r).toList ++ (Spec.dtor .asyncCallback k r).toList ++
         (Spec.dtor .asyncStackful k r).toList
-  worldImports : ∀ d ∈ e.worldImports, d.imp ∈ Spec.rootBuiltins
-  worldExports : ∀ x ∈ e.worldExports, x ∈ [Spec.realloc, Spec.initExport]
+  worldImports : ∀ w, okWorld w → ∀ d ∈ e.worldImports w, d.imp ∈ Spec.rootBuiltins
+  worldExports : ∀ w, okWorld w → ∀ x ∈ e.worldExports w, x ∈ [Spec.realloc, Spec.initExport]
 
-theorem Emit.imports_sound {e : Emit} {okFn okRes} (h : e.SoundOn okFn okRes) (w : World)
-    (hw : w.WF okFn okRes) : ∀ d ∈ e.imports w, d.imp ∈ Spec.allImports w := by
+theorem Emit.imports_sound {e : Emit} {okFn okRes okWorld} (h : e.SoundOn okFn okRes okWorld) (w : World)
+    (hw : w.WF okFn okRes okWorld) : ∀ d ∈ e.imports w, d.imp ∈ Spec.allImports w := by
   intro d hd
   unfold Emit.imports at hd
   unfold Spec.allImports
@@ -100,7 +102,7 @@ theorem Emit.imports_sound {e : Emit} {okFn okRes} (h : e.SoundOn okFn okRes) (w
         · exact Or.inl ⟨f, hf, h.importFn _ _ (hw.fnI _ hmem i rfl f hf) d hd⟩
         · exact Or.inr ⟨r, hr, h.importRes _ _ d hd⟩
       | func f => exact h.importFn _ _ (hw.fnW _ hmem f rfl) d hd
-      | rtype r => exact h.importRes _ _ d hd
+      | rtype r => exact List.mem_append_left _ (h.importRes _ _ d hd)
       | other => simp [Emit.itemImports] at hd
     · -- imports made on behalf of exported items
       apply List.mem_append_left; apply List.mem_append_right
@@ -117,10 +119,10 @@ theorem Emit.imports_sound {e : Emit} {okFn okRes} (h : e.SoundOn okFn okRes) (w
       | func f => exact h.exportFnImports _ _ (hw.fnW _ hmem f rfl) d hd
       | rtype r => simp [Emit.itemExportImports] at hd
       | other => simp [Emit.itemExportImports] at hd
-  · exact List.mem_append_right _ (h.worldImports d hd)
+  · exact List.mem_append_right _ (h.worldImports w hw.world d hd)
 
-theorem Emit.exports_sound {e : Emit} {okFn okRes} (h : e.SoundOn okFn okRes) (w : World)
-    (hw : w.WF okFn okRes) : ∀ x ∈ e.exports w, x ∈ Spec.allExports w := by
+theorem Emit.exports_sound {e : Emit} {okFn okRes okWorld} (h : e.SoundOn okFn okRes okWorld) (w : World)
+    (hw : w.WF okFn okRes okWorld) : ∀ x ∈ e.exports w, x ∈ Spec.allExports w := by
   intro x hx
   unfold Emit.exports at hx
   unfold Spec.allExports
@@ -140,11 +142,11 @@ theorem Emit.exports_sound {e : Emit} {okFn okRes} (h : e.SoundOn okFn okRes) (w
     | func f => exact h.exportFn _ _ (hw.fnW _ hmem f rfl) x hx
     | rtype r => simp [Emit.itemExports] at hx
     | other => simp [Emit.itemExports] at hx
-  · exact List.mem_append_right _ (h.worldExports x hx)
+  · exact List.mem_append_right _ (h.worldExports w hw.world x hx)
 
-theorem Emit.exports_complete {e : Emit} {okFn okRes}
+theorem Emit.exports_complete {e : Emit} {okFn okRes okWorld}
     (hc : ∀ k f, okFn k f → ∀ x ∈ Spec.requiredOfFn k f, x ∈ e.exportFn k f)
-    (w : World) (hw : w.WF okFn okRes) : ∀ x ∈ Spec.requiredExports w, x ∈ e.exports w := by
+    (w : World) (hw : w.WF okFn okRes okWorld) : ∀ x ∈ Spec.requiredExports w, x ∈ e.exports w := by
   intro x hx
   unfold Spec.requiredExports at hx
   unfold Emit.exports
